@@ -85,6 +85,44 @@ def mutated_names(stmts):
     return names
 
 
+def nested_append_index(stmts, name):
+    """if every write to ``name`` in the statements is ``name[IDX].append(..)`` with one
+    simple index variable, return that variable's name (only element IDX changes)"""
+    idx = set()
+    ok = [True]
+
+    def root(n):
+        while isinstance(n, (ast.Subscript, ast.Attribute)):
+            n = n.value
+        return n.id if isinstance(n, ast.Name) else None
+
+    def visit(n):
+        if isinstance(n, (ast.FunctionDef, ast.Lambda, ast.ClassDef)):
+            return
+        if isinstance(n, ast.Assign):
+            for t in n.targets:
+                if isinstance(t, (ast.Subscript, ast.Attribute)) and root(t) == name:
+                    ok[0] = False
+                if isinstance(t, ast.Name) and t.id == name:
+                    ok[0] = False
+        elif isinstance(n, ast.AugAssign) and root(n.target) == name:
+            ok[0] = False
+        elif isinstance(n, ast.Call) and isinstance(n.func, ast.Attribute) and n.func.attr in MUTATING_METHODS and root(n.func.value) == name:
+            v = n.func.value
+            if n.func.attr == "append" and isinstance(v, ast.Subscript) and isinstance(v.value, ast.Name) and isinstance(v.slice, ast.Name):
+                idx.add(v.slice.id)
+            else:
+                ok[0] = False
+        for ch in ast.iter_child_nodes(n):
+            visit(ch)
+
+    for s_ in stmts:
+        visit(s_)
+    if ok[0] and len(idx) == 1:
+        return next(iter(idx))
+    return None
+
+
 def havoc_value(eng, st, name, cur, ty=None):
     """fresh value of the same shape as ``cur`` (or of declared type ``ty``)"""
     if ty is not None:
@@ -217,6 +255,24 @@ def cut_loop(eng, node, st, fid, spec, kind, iterv=None):
             eng.assign(node.target, getter(i), s, fid)
             eng.setvar(s, fid, "_i", i)
 
+    body_assigned = assigned_names(node.body)
+    body_mutated = mutated_names(node.body)
+    # ghost snapshots pre_<name> of every container the body writes (by value)
+    pres = {}
+    for name in sorted(body_mutated):
+        f_ = fid
+        while f_ is not None:
+            fr_ = st.frames[f_]
+            if name in fr_["vars"]:
+                cur_ = fr_["vars"][name]
+                if isinstance(cur_, Ref):
+                    pres["pre_" + name] = st.heap[cur_.loc]
+                break
+            f_ = fr_["parent"]
+    lvl = spec.get("label") or "L"
+    for k_, v_ in pres.items():
+        eng.setvar(st, fid, k_ + "__" + str(eng.loop_ord.get(id(node))), v_)
+        eng.setvar(st, fid, k_, v_)
     # --- 1. invariant holds on entry -------------------------------------------
     if kind == "for":
         set_target(st, lo)
@@ -262,6 +318,16 @@ def cut_loop(eng, node, st, fid, spec, kind, iterv=None):
     for name in sorted(body_mutated):
         vars_, cur = find_var(name)
         if isinstance(cur, Ref):
+            ix = nested_append_index(node.body, name)
+            obj = st.heap[cur.loc]
+            if ix is not None and ix not in body_assigned and isinstance(obj, ListV) and ix not in tgt_names:
+                # only element [ix] of the outer list is written: frame the rest
+                _, ixv = find_var(ix)
+                ty = types.get(name) or (f"list[list[{obj.get(ixv).etype or 'int'}]]")
+                inner = fresh_list(eng, name + ".at", ty[5:-1])
+                st.assume(V.cmp(">=", inner.n, 0))
+                st.heap[cur.loc] = obj.set(ixv, inner)
+                continue
             havoc_heap(eng, st, name, cur, types.get(name))
     for h in spec.get("havoc_refs", []):
         h(eng, st, fid)
@@ -335,8 +401,21 @@ def cut_loop(eng, node, st, fid, spec, kind, iterv=None):
         pre_hook = spec.get("body_pre")
         if pre_hook:
             pre_hook(eng, s1, fid)
-        for s2, oc in eng.exec_block(node.body, s1, fid):
+        saved_probes = (getattr(eng, "probes", None), getattr(eng, "probes_hit", None))
+        if spec.get("probes"):
+            # ghost snapshots of the loop variables after statements identified by their text
+            eng.probes = {txt: (label, sorted(body_assigned)) for label, txt in spec["probes"].items()}
+            eng.probes_hit = set()
+        body_outs = eng.exec_block(node.body, s1, fid)
+        if spec.get("probes"):
+            missing = set(spec["probes"]) - eng.probes_hit
+            eng.probes, eng.probes_hit = saved_probes
+            if missing:
+                raise Unsupported(f"loop {lab}: probe statement(s) {sorted(missing)} not found in the loop body")
+        for s2, oc in body_outs:
             if oc.kind in ("normal", "continue"):
+                for label, val in eval_clauses(eng, s2, fid, norm_clauses(spec.get("step_lemmas"))):
+                    eng.oblige(s2, "lemma", f"{lab}.{label}", val)
                 if kind == "for":
                     set_target(s2, V.add(i, step))
                 for label, val in eval_clauses(eng, s2, fid, inv):
